@@ -39,6 +39,7 @@ type adapterDouble struct {
 	closed chan struct{}
 	closes counter
 	once   sync.Once
+	fail   bool // Close releases the listener but reports an error
 }
 
 func (a *adapterDouble) StartListener(config.MappingConfig) error { return nil }
@@ -57,6 +58,9 @@ func (a *adapterDouble) GetProtocol() string                        { return "tc
 func (a *adapterDouble) Close() error {
 	a.closes.hit()
 	a.once.Do(func() { close(a.closed) })
+	if a.fail {
+		return errInjected
+	}
 	return nil
 }
 
@@ -74,6 +78,11 @@ type mapClient struct {
 	recv      atomic.Int64
 	notifies  atomic.Int32
 	dials     atomic.Int32
+	tracks    atomic.Int32
+	// optional: the first TrackTraffic call parks on trackGate (trackEntered is closed when it is inside)
+	trackGate    chan struct{}
+	trackEntered chan struct{}
+	trackSlow    bool
 }
 
 func (c *mapClient) DialTunnel(tunnelID, mappingID, secretKey string) (net.Conn, stream.PackageStreamer, error) {
@@ -99,6 +108,15 @@ func (c *mapClient) CheckMappingQuota(string) error                        { ret
 func (c *mapClient) TrackTraffic(_ string, s, r int64) error {
 	c.sent.Add(s)
 	c.recv.Add(r)
+	if c.tracks.Add(1) == 1 && c.trackGate != nil {
+		// a stalled control connection: the first report stays in flight until released
+		close(c.trackEntered)
+		<-c.trackGate
+	}
+	if c.trackSlow {
+		for t := nowNS(); nowNS()-t < 30000; {
+		}
+	}
 	return nil
 }
 func (c *mapClient) GetUserQuota() (*models.UserQuota, error) {
@@ -116,9 +134,12 @@ func genMapping(t *rapid.T) Round {
 	r := Round{Comp: "mapping-handler", P: map[string]int{}}
 	r.Closers = rapid.SampledFrom([]int{2, 2, 2, 3, 3, 4, 5, 6, 8}).Draw(t, "closers")
 	r.Paths = drawPaths(t, mappingPaths, 3)
+	r.P["hfault"] = rapid.IntRange(0, 3).Draw(t, "hfault") // bit 1: an earlier cleanup handler fails, bit 2: it is slow
 	r.P["conns"] = rapid.IntRange(0, 3).Draw(t, "conns")
 	r.P["bytes"] = rapid.SampledFrom([]int{0, 1, 600}).Draw(t, "bytes")
 	r.P["variant"] = 0
+	r.P["adapterErr"] = rapid.IntRange(0, 1).Draw(t, "adapterErr") // the adapter's Close reports an error
+	r.P["slowTrack"] = rapid.IntRange(0, 1).Draw(t, "slowTrack")   // TrackTraffic takes ~30us
 	return r
 }
 
@@ -127,8 +148,8 @@ func runMapping(r Round) *outcome {
 	base := snapshot(mappingPrefixes)
 	parent, cancel := context.WithCancel(context.Background())
 	defer cancel()
-	cl := &mapClient{ctx: parent}
-	ad := &adapterDouble{ch: make(chan io.ReadWriteCloser, 8), closed: make(chan struct{})}
+	cl := &mapClient{ctx: parent, trackSlow: r.p("slowTrack") == 1}
+	ad := &adapterDouble{ch: make(chan io.ReadWriteCloser, 8), closed: make(chan struct{}), fail: r.p("adapterErr") == 1}
 	cfg := config.MappingConfig{MappingID: "m-c16", SecretKey: "k", Protocol: "tcp", LocalPort: 18080, TargetClientID: 42, MaxConnections: 100}
 	h := mapping.NewBaseMappingHandler(cl, cfg, ad)
 	defer func() {
@@ -136,7 +157,10 @@ func runMapping(r Round) *outcome {
 			h.Close()
 		}
 	}()
-	var mine counter
+	var mine, faulty counter
+	if m := r.p("hfault"); m != 0 {
+		h.AddCleanHandler(faultyHandler(m, &faulty))
+	}
 	h.AddCleanHandler(func() error { mine.hit(); return nil })
 	if err := h.Start(); err != nil {
 		o.skipped = true
@@ -273,6 +297,9 @@ func runMapping(r Round) *outcome {
 
 	if n := mine.get(); n != 1 {
 		o.failf("C16/mapping-handler/cleanup-handler-ran-"+times(n), "registered cleanup handler ran %d times", n)
+	}
+	if n := faulty.get(); r.p("hfault") != 0 && n != 1 {
+		o.failf("C16/mapping-handler/failing-or-slow-cleanup-handler-ran-"+times(n), "the cleanup handler registered before the counting one (fault mode %d) ran %d times", r.p("hfault"), n)
 	}
 	if n := ad.closes.get(); n != 1 {
 		o.failf("C16/mapping-handler/adapter-closed-"+times(n), "the handler closed its protocol adapter %d times", n)
